@@ -421,11 +421,11 @@ def gen_specs(rng: random.Random, tier: str) -> list[dict]:
                       'want_reference': tm})      # the reference run warms the caches of the standard library (module tracing on)
     # X: exhaustive over the reduced grammar
     for i, src in enumerate(exhaustive_programs(3 if quick else 4)):
-        for pol in ALL:
+        for pol in (ALL[:3] if quick else ALL):      # quick: step, next, continue (+ a mix); return/until on the random programs and templates
             add(src, pol, 'exhaustive')
         add(src, mix(i, MIX_A if i % 2 else MIX_B), 'exhaustive')
     # S: random sequential programs of the shared generator
-    for i in range(150 if quick else 2000):
+    for i in range(120 if quick else 2000):
         src = progs.sequential(random.Random(rng.randrange(1 << 30)), rng.choice([4, 6, 8, 12, 16]))
         for pol in ALL:
             add(src, pol, 'sequential')
